@@ -496,7 +496,7 @@ Section Model.
         | Err => (s0, 1%nat)
         | Panic => (s0, 2%nat)
         end
-    | OEnv => (s, 0%nat)
+    | OEnv => (s, 9%nat)
     end.
 
   Fixpoint run (s : state) (os : list op) : state :=
